@@ -190,17 +190,17 @@ func toEnum(src val.EnumList, v interface{}) (val.Enum, error) {
 	if e, isEnum := v.(val.Enum); isEnum {
 		v = e.Label
 	}
-	if id, isNum := val.Conv(val.FmtInt32, v); isNum == nil {
+	if id, isNum := val.Conv(val.FmtInt32, v); isNum == nil && id != nil {
 		if e, found := src.ById(id.Value().(int)); found {
 			return e, nil
 		}
-	} else if id, isNum := val.Conv(val.FmtUInt32, v); isNum == nil {
+	} else if id, isNum := val.Conv(val.FmtUInt32, v); isNum == nil && id != nil {
 		if e, found := src.ById(int(id.Value().(uint))); found {
 			return e, nil
 		}
 	} else {
 		label, isLabel := val.Conv(val.FmtString, v)
-		if isLabel == nil {
+		if isLabel == nil && label != nil {
 			if e, found := src.ByLabel(label.String()); found {
 				return e, nil
 			}
